@@ -50,19 +50,22 @@ def body_resolve(cap):
     def body(M):
         n = z3.BitVec('n', 64); M.add(z3.ULE(n, cap))
         toks = [Tok('ty%d' % i) for i in range(cap)]
-        reg = Cell([VecV(n, [[bv(i, 32), toks[i]] for i in range(cap)])])
+        # the id FIELDS of the entries are arbitrary: a decoded (untrusted) registry need not be dense
+        idf = [z3.BitVec('idfield%d' % i, 32) for i in range(cap)]
+        reg = Cell([VecV(n, [[idf[i], toks[i]] for i in range(cap)])])
         idv = z3.BitVec('id', 32)
+        def fields(m): return [m.eval(x, model_completion=True).as_long() for x in idf][:m.eval(n, model_completion=True).as_long()]
         try:
             r = M.run_fn(M.resolve('PortableRegistry::resolve'), [Ref(reg), idv])
         except Panic as e:
-            m = M.model(); M.emit('cex', what='resolve', n=m.eval(n, model_completion=True).as_long(), id=m.eval(idv, model_completion=True).as_long(), problem='panic'); return
+            m = M.model(); M.emit('cex', what='resolve', n=m.eval(n, model_completion=True).as_long(), id=m.eval(idv, model_completion=True).as_long(), id_fields=fields(m), problem='panic'); return
         inr = z3.ULT(z3.ZeroExt(32, idv), n)
         if r.discr == 0: bad = inr
         else:
             got = deref(M, payload(r, 1)[0])
             bad = z3.Or(z3.Not(inr), z3.Or([z3.And(idv == i, z3.BoolVal(got != toks[i])) for i in range(cap)]), z3.UGE(idv, cap))
         m = M.model(bad)
-        if m is not None: M.emit('cex', what='resolve', n=m.eval(n, model_completion=True).as_long(), id=m.eval(idv, model_completion=True).as_long(), problem='wrong answer')
+        if m is not None: M.emit('cex', what='resolve', n=m.eval(n, model_completion=True).as_long(), id=m.eval(idv, model_completion=True).as_long(), id_fields=fields(m), problem='wrong answer')
         else: M.emit('ok', some=(r.discr == 1))
     return body
 
@@ -70,7 +73,7 @@ def body_resolve(cap):
 def replay_case(ctx, case):
     nat = ctx.get_native()
     if case['what'] == 'resolve':
-        a = nat.ask({'op': 'resolve', 'n': case['n'], 'id': case['id']}); return (a.get('panic') or a.get('crashed') or not a.get('ok', False)), None
+        a = nat.ask({'op': 'resolve', 'n': case['n'], 'id': case['id'], 'id_fields': case.get('id_fields')}); return (a.get('panic') or a.get('crashed') or not a.get('ok', False)), None
     a = nat.ask({'op': 'decode_bytes', 'entry': case['entry'], 'bytes': case['bytes']})
     if a.get('panic') or a.get('crashed'): return True, None
     if a.get('decoded') and not a.get('canonical'): return True, None
@@ -154,7 +157,7 @@ def run(ctx):
         if len(cexs) > 10: break
     h = run_harness(ctx, 'resolve', body_resolve(3))
     cexs += [r for r in h.results if r['kind'] == 'cex']
-    ctx.obligations['resolve(id): None iff id >= len, Some(types[id].ty) otherwise, never panics (len <= 3, all u32 ids)'] = 'sat' if h.kinds.get('cex') else 'unsat'
+    ctx.obligations['resolve(id): None iff id >= len, Some(types[id].ty) otherwise, never panics (len <= 3, all u32 ids, arbitrary id fields in the entries)'] = 'sat' if h.kinds.get('cex') else 'unsat'
     # (3) scalar leaves on the real codec (engine K): no panic / overflow / out-of-bounds on arbitrary bytes, canonical, and equal to the Rust twins of mirsym's codec-primitive models
     from checks import c06
     LEAVES = ['leaf_compact_u32', 'leaf_symbol', 'leaf_array', 'leaf_bitsequence', 'leaf_primitive', 'leaf_sequence_compact', 'leaf_option_symbol', 'leaf_u32_u8']
